@@ -1241,7 +1241,8 @@ valid_sampling_par		(vbi_dvb_mux *		mx,
 	if (unlikely ((unsigned int) sp->offset < BT601_625_OFFSET))
 		return FALSE;
 
-	samples_end = sp->offset + sp->sp_samples_per_line;
+	samples_end = (unsigned int) sp->offset
+		+ (unsigned int) sp->sp_samples_per_line;
 	if (unlikely (samples_end > BT601_625_OFFSET + 720))
 		return FALSE;
 	if (unlikely (samples_end < (unsigned int) sp->sp_samples_per_line))
